@@ -57,6 +57,21 @@ def gen_prog(r, sid, tier):
             cloned = True
         elif k == "swap":
             ops.append(("swap",))
+    if r.chance(1, 3):
+        # an edit log concentrated on two or three names (one of them inherited): set twice then remove, remove then
+        # set again, clear in the middle
+        names = [r.choice([b"A", b"B"]), r.choice([b"LANG", b"HOME", b"PATH"]), b"AB"]
+        for _ in range(3 + r.below(8)):
+            k = r.choice(["env", "env", "env", "env_remove", "env_remove", "env_extend", "env_clear"]) if r.chance(9, 10) else "env_clear"
+            if k == "env":
+                e = ("env", r.choice(names), r.choice(VALS))
+            elif k == "env_remove":
+                e = ("env_remove", r.choice(names))
+            elif k == "env_extend":
+                e = ("env_extend", [(r.choice(names), r.choice(VALS)) for _ in range(1 + r.below(3))])
+            else:
+                e = ("env_clear",)
+            ops.insert(r.below(len(ops) + 1), e)
     if r.chance(1, 4):
         # input data on a handle that is then cloned: both handles must carry it
         pos = r.below(len(ops) + 1)
@@ -291,6 +306,8 @@ def judge(chk, s, mline):
         if envp != L["envp"]:
             if envp is None or L["envp"] is None:
                 bad.append("%s: environment %s, model %s" % (tag, "inherited" if envp is None else "explicit", "inherit" if L["envp"] is None else "explicit"))
+            elif sorted(envp) == sorted(L["envp"]):
+                bad.append("TIE-ONLY %s (%s): the environment block has the model's entries in a different order" % (tag, term))
             else:
                 bad.append("%s (%s): environment block at exec differs from the model: %s" % (tag, term, X.first_diff(sorted(envp), sorted(L["envp"]))))
         ch = [ln for ln in clog if ln.startswith("chdir ")]
@@ -464,6 +481,7 @@ def run(chk, tier, explicit=None):
     mlines = X.sppure([model_line(s, parent_base(s)) for s in good]) if good else []
     nvm = vm_crosscheck(good, mlines)
     ndiv = 0
+    tie_only = []
     dist = {"outcome": {}, "terminator": {}, "ops": {}}
     for s, ml in zip(good, mlines):
         s["mline"] = ml
@@ -477,10 +495,15 @@ def run(chk, tier, explicit=None):
         if bad:
             ndiv += 1
             s["div"] = bad
-            # a disagreement on what the child got is a failing input of the property itself
-            chk.violation("C16: %s [%s]" % ("; ".join(bad[:3]), describe(s["prog"])), prog_to_json(s["prog"]))
+            # a disagreement on what the child got is a failing input of the property itself; a difference the
+            # property does not speak about (order of the environment block) only breaks the tie to the model
+            sem = [b for b in bad if not b.startswith("TIE-ONLY")]
+            if sem:
+                chk.violation("C16: %s [%s]" % ("; ".join(sem[:3]), describe(s["prog"])), prog_to_json(s["prog"]))
+            else:
+                tie_only.append("%s [%s]" % (bad[0], describe(s["prog"])))
     if ndiv:
-        chk.tie_broken("E2: %d of %d builder programs behave differently from Lib/Builder.v" % (ndiv, len(good)))
+        chk.tie_broken("E2: %d of %d builder programs behave differently from Lib/Builder.v%s" % (ndiv, len(good), "; e.g. " + tie_only[0] if tie_only else ""))
     chk.cov["evaluations"] = len(scns)
     chk.cov["traces_validated_against_impl"] = len(good) - ndiv
     chk.cov["distinct_nontrivial"] = len(set(prog_to_json(s["prog"]) for s in scns if len(s["prog"]["ops"]) >= 2))
